@@ -30,6 +30,7 @@ var (
 	c16SplitSize int64
 	c16CSVRows   [][]string
 	c16Meta      *splitcarfetcher.Metadata
+	c16Subsets   []subsetInfo // what each modelled subset node was built from, in writing order
 )
 
 func verifC16SplitIn() string     { return c16SplitIn }
@@ -73,6 +74,9 @@ func c16MkCid(seed byte) cid.Cid {
 // writeSubsetNode (ipld-prime qp builder + dag-cbor + sha256): writes one CAR section of
 // c16SubsetNodeLen bytes to the writer and returns a link, like the original.
 func writeSubsetNode(currentSubsetInfo subsetInfo, writer io.Writer) (datamodel.Link, error) {
+	rec := currentSubsetInfo
+	rec.blockLinks = append([]datamodel.Link{}, currentSubsetInfo.blockLinks...)
+	c16Subsets = append(c16Subsets, rec)
 	sec := make([]byte, c16SubsetNodeLen)
 	for i := range sec {
 		sec[i] = 0xEE
@@ -102,30 +106,43 @@ func writeMetadata(metadata *splitcarfetcher.Metadata, epoch int) error {
 	return nil
 }
 
-// CAR header CBOR codec (refmt, reflection): {"roots":[tag42(0x00‖cid)],"version":1}, one root.
+// CAR header CBOR codec (refmt, reflection): {"roots":[tag42(0x00‖cid), ...],"version":v} with
+// 1..23 roots of CIDs shorter than 255 bytes.
 func c16Model_cborDumpObject(obj interface{}) ([]byte, error) {
 	h, ok := obj.(*car.CarHeader)
-	if !ok || len(h.Roots) != 1 {
-		return nil, errors.New("c16 model: only single-root CAR headers are modelled")
+	if !ok || len(h.Roots) < 1 || len(h.Roots) > 23 {
+		return nil, errors.New("c16 model: only CAR headers with 1..23 roots are modelled")
 	}
-	cb := h.Roots[0].Bytes()
-	out := []byte{0xA2, 0x65, 'r', 'o', 'o', 't', 's', 0x81, 0xD8, 0x2A, 0x58, byte(len(cb) + 1), 0x00}
-	out = append(out, cb...)
+	out := []byte{0xA2, 0x65, 'r', 'o', 'o', 't', 's', 0x80 + byte(len(h.Roots))}
+	for _, r := range h.Roots {
+		cb := r.Bytes()
+		out = append(out, 0xD8, 0x2A, 0x58, byte(len(cb)+1), 0x00)
+		out = append(out, cb...)
+	}
 	out = append(out, 0x67, 'v', 'e', 'r', 's', 'i', 'o', 'n', byte(h.Version))
 	return out, nil
 }
 
 func c16Model_cborDecodeInto(b []byte, v interface{}) error {
 	h, ok := v.(*car.CarHeader)
-	if !ok || len(b) < 14 || b[0] != 0xA2 || b[7] != 0x81 || b[10] != 0x58 {
-		return errors.New("c16 model: only single-root CAR headers are modelled")
+	if !ok || len(b) < 14 || b[0] != 0xA2 || b[7]&0xE0 != 0x80 {
+		return errors.New("c16 model: only CAR headers with 1..23 roots are modelled")
 	}
-	n := int(b[11]) - 1
-	_, c, err := cid.CidFromBytes(b[13 : 13+n])
-	if err != nil {
-		return err
+	n := int(b[7] & 0x1F)
+	pos := 8
+	h.Roots = nil
+	for i := 0; i < n; i++ {
+		if pos+5 > len(b) || b[pos] != 0xD8 || b[pos+2] != 0x58 {
+			return errors.New("c16 model: malformed root")
+		}
+		l := int(b[pos+3]) - 1
+		_, c, err := cid.CidFromBytes(b[pos+5 : pos+5+l])
+		if err != nil {
+			return err
+		}
+		h.Roots = append(h.Roots, c)
+		pos += 5 + l
 	}
-	h.Roots = []cid.Cid{c}
 	h.Version = uint64(b[len(b)-1])
 	return nil
 }
@@ -160,22 +177,38 @@ func c16Section(c cid.Cid, data []byte) []byte {
 func VerifC16Split() {
 	S := verifParam("sections", 3)
 	// original CAR: header with one root, then S sections
-	hb, _ := c16Model_cborDumpObject(&car.CarHeader{Roots: []cid.Cid{c16MkCid(0x11)}, Version: 1})
+	// 1 root: 59-byte header (1-byte length prefix); 3 roots: 2-byte length prefix
+	var roots []cid.Cid
+	nRoots := verifParam("roots", 1)
+	if nRoots == 0 {
+		nRoots = []int{1, 3}[verifChoice("roots", 2)]
+	}
+	for i := 0; i < nRoots; i++ {
+		roots = append(roots, c16MkCid(byte(0x11+i)))
+	}
+	hb, _ := c16Model_cborDumpObject(&car.CarHeader{Roots: roots, Version: 1})
 	carBytes := append(leb128.FromUInt64(uint64(len(hb))), hb...)
 	origHeaderLen := len(carBytes)
 
 	kinds := make([]uint8, S)
 	raws := make([][]byte, S)
+	cids := make([]cid.Cid, S)
+	slots := []int{12, 10, 13, 11, 14}
 	var blocks uint64
 	for j := 0; j < S; j++ {
-		data := verifBytes(fmt.Sprintf("obj%d", j), 4+j)
+		dl := 4 + j
+		if j == verifParam("boundary_section", -1) {
+			dl = 92 // cid (36) + data = 128: first section length with a 2-byte length prefix
+		}
+		data := verifBytes(fmt.Sprintf("obj%d", j), dl)
 		data[0] = 0x86
-		data[2] = byte(10 + j) // the slot the DecodeBlock model reports
+		data[2] = byte(slots[j]) // the slot the DecodeBlock model reports (not monotonic)
 		kinds[j] = data[1]
 		// transaction (0), entry (1), block (2), subset (3, ignored), epoch (4, ignored)
 		verifAssume(kinds[j] <= 4)
 		blocks += verifIteU64(kinds[j] == 2, 1, 0)
-		raws[j] = c16Section(c16MkCid(byte(0x20+j)), data)
+		cids[j] = c16MkCid(byte(0x20 + j))
+		raws[j] = c16Section(cids[j], data)
 		carBytes = append(carBytes, raws[j]...)
 	}
 	// at least one block (an epoch CAR without any block makes the command dereference a nil writer)
@@ -184,7 +217,12 @@ func VerifC16Split() {
 	verifMemFile(c16SplitIn, carBytes)
 	c16SplitSize = int64(verifU16("target_size"))
 	verifAssume(c16SplitSize <= int64(len(carBytes)+80))
-	c16CSVRows, c16Meta = nil, nil
+	maxLinksParam := verifParam("max_links", -1) // >= 0: maxLinks is rewritten to this value (C16.splitlinks)
+	if maxLinksParam >= 0 {
+		// the target size never forces a new piece: only the link limit does
+		verifAssume(c16SplitSize >= int64(len(carBytes)+70))
+	}
+	c16CSVRows, c16Meta, c16Subsets = nil, nil, nil
 
 	err := newCmd_SplitCar().Action(nil)
 	verifAssert(err == nil, "C16.split: split-car failed on a well-formed CAR")
@@ -195,6 +233,7 @@ func VerifC16Split() {
 	// expected content stream and the offsets at which a block family ends
 	var want []byte
 	famEnd := map[int]bool{0: true}
+	blockAt := map[int]int{} // offset in want at which a block section ends -> its section index
 	pending := 0
 	for j := 0; j < S; j++ {
 		if kinds[j] == 3 || kinds[j] == 4 {
@@ -204,6 +243,7 @@ func VerifC16Split() {
 		pending += len(raws[j])
 		if kinds[j] == 2 {
 			famEnd[len(want)] = true
+			blockAt[len(want)] = j
 			pending = 0
 		}
 	}
@@ -231,12 +271,42 @@ func VerifC16Split() {
 		got = append(got, file[p.HeaderSize:end]...)
 		verifAssert(famEnd[len(got)], "C16.split: a piece boundary falls inside a block's family of objects")
 		families := 0
+		var wantLinks []cid.Cid
+		first, last := -1, -1
 		for o := prevLen + 1; o <= len(got); o++ {
 			if famEnd[o] {
 				families++
+				j := blockAt[o]
+				wantLinks = append(wantLinks, cids[j])
+				if first == -1 || slots[j] < first {
+					first = slots[j]
+				}
+				if slots[j] > last {
+					last = slots[j]
+				}
 			}
 		}
+		// the subset node of this piece is built from exactly the blocks of this piece
+		verifAssert(i < len(c16Subsets), "C16.split: fewer subset nodes than pieces")
+		if i < len(c16Subsets) {
+			si := c16Subsets[i]
+			verifAssert(si.fileName == p.Name, "C16.split: subset node built for another piece file")
+			linksOK := len(si.blockLinks) == len(wantLinks)
+			for x := 0; linksOK && x < len(wantLinks); x++ {
+				l, ok := si.blockLinks[x].(cidlink.Link)
+				linksOK = ok && l.Cid.Equals(wantLinks[x])
+			}
+			verifAssert(linksOK, "C16.split: the subset node of a piece does not link exactly the blocks written to that piece, in order")
+			verifAssert(si.firstSlot == first && si.lastSlot == last, "C16.split: first/last slot of a piece's subset node are not the min/max slot of its blocks")
+		}
 		verifAssert(families >= 1, "C16.split: a piece without any block")
+		if maxLinksParam >= 0 {
+			// roll-over happens when a piece already links more than maxLinks blocks
+			verifAssert(families <= maxLinksParam+1, "C16.split: a piece links more blocks than the link limit allows")
+			if i < len(m.CarPieces)-1 {
+				verifAssert(families == maxLinksParam+1, "C16.split: a piece was closed before the link limit although the target size did not force it")
+			}
+		}
 		if families > 1 {
 			verifAssert(p.HeaderSize+p.ContentSize <= uint64(c16SplitSize), "C16.split: a piece holding several blocks exceeds the target size (in accounted bytes)")
 		}
@@ -244,6 +314,7 @@ func VerifC16Split() {
 			csvOK = false
 		}
 	}
+	verifAssert(len(c16Subsets) == len(m.CarPieces), "C16.split: number of subset nodes differs from the number of pieces")
 	verifAssert(bytes.Equal(got, want), "C16.split: piece contents are not the original objects, byte-identical and in order")
 	verifReach("content-checked")
 	// known finding: the subset (and epoch) node appended to every piece is not counted
